@@ -19,6 +19,7 @@ PROFILE = {
     "max_dur": 24,
     "max_delay_ticks": 48,
     "attempt_timeout": 0.1,
+    "handler_time": 0.3,
 }
 
 
